@@ -111,8 +111,46 @@ fn pending() -> &'static Pending {
     })
 }
 
+thread_local! {
+    static CUR_WORKER: std::cell::Cell<usize> = const { std::cell::Cell::new(usize::MAX) };
+}
+
+type StallFn = Box<dyn Fn(Option<PendingInfo>, &'static str) + Send + Sync>;
+static ON_CRASH: std::sync::OnceLock<StallFn> = std::sync::OnceLock::new();
+
+extern "C" fn on_fatal_signal(_sig: libc::c_int) {
+    // A stack overflow (or another fatal memory fault) inside a library call: report the pending
+    // call like a stall. Best effort: we are on the alternate signal stack and about to exit.
+    let w = CUR_WORKER.with(|c| c.get());
+    if let Some(f) = ON_CRASH.get() {
+        let mut info = None;
+        if w != usize::MAX {
+            if let Ok(g) = pending().what[w % MAX_WORKERS].try_lock() {
+                info = g.clone();
+            }
+        }
+        f(info, "stack overflow or memory fault");
+    }
+    unsafe { libc::_exit(4) };
+}
+
+/// Report a stack overflow / memory fault in a worker thread through `on_crash` (which is expected
+/// to write the counterexample and exit the process).
+pub fn install_crash_handler(on_crash: impl Fn(Option<PendingInfo>, &'static str) + Send + Sync + 'static) {
+    let _ = ON_CRASH.set(Box::new(on_crash));
+    unsafe {
+        let mut sa: libc::sigaction = std::mem::zeroed();
+        sa.sa_sigaction = on_fatal_signal as *const () as usize;
+        sa.sa_flags = libc::SA_ONSTACK;
+        libc::sigemptyset(&mut sa.sa_mask);
+        libc::sigaction(libc::SIGSEGV, &sa, std::ptr::null_mut());
+        libc::sigaction(libc::SIGBUS, &sa, std::ptr::null_mut());
+    }
+}
+
 /// mark that worker `w` starts a library call batch
 pub fn pending_begin(w: usize, what: PendingInfo) {
+    CUR_WORKER.with(|c| c.set(w));
     let p = pending();
     *p.what[w % MAX_WORKERS].lock().unwrap() = Some(what);
     p.since_ms[w % MAX_WORKERS].store(p.epoch.elapsed().as_millis() as u64 + 1, Ordering::SeqCst);
